@@ -128,6 +128,20 @@ def run(ck):
                     ck.violation(f'{kn} kernel entry ({a},{b}) = {Kmat[a, b]!r}, documented closed form gives {float(want)!r} (err {err:.3g} > {base_tol:.3g}) on {desc}',
                                  dict(desc, x=Xe[a].tolist(), z=Ze[b].tolist(), mat=None if me is None else me.tolist(), got=float(Kmat[a, b]), want=float(want)),
                                  key=json.dumps(dict(site='entry', kernel=kn, p=p, q=q if kn == 'lpq' else None)))
+        # history: the SAME kernel object evaluated again on other rows held at the same address (staging buffer refilled in place) must give what a
+        # fresh kernel object gives on those rows
+        if i % 3 == 1:
+            bufX = np.ascontiguousarray(Xt.numpy().copy())
+            with xr.quiet():
+                kobj.get_kernel_matrix(torch.from_numpy(bufX), Zt, mt)
+                X2 = (rng.standard_normal(bufX.shape) * scale).astype(bufX.dtype); bufX[:] = X2
+                Kre = kobj.get_kernel_matrix(torch.from_numpy(bufX), Zt, mt).double().numpy()
+                kfresh = make_kernel(xr, kn, L, q, p, cmix, power)
+                Kfr = kfresh.get_kernel_matrix(torch.tensor(X2), Zt, mt).double().numpy()
+            ck.count('same kernel object on a refilled buffer')
+            if np.max(np.abs(Kre - Kfr)) > base_tol:
+                ck.violation(f'{kn}: second evaluation of the same kernel object on a refilled buffer differs from a fresh kernel object on the same rows by {np.max(np.abs(Kre - Kfr)):.3g} on {desc}',
+                             dict(desc, dev=float(np.max(np.abs(Kre - Kfr)))), key=json.dumps(dict(site='reuse', kernel=kn)))
         # structure: symmetry, unit diagonal, range, row independence
         probs = []
         if np.max(np.abs(Kxx - Kxx.T)) > base_tol:
